@@ -16,6 +16,7 @@ vars == <<ti, val>>
 
 TypeSet == IF Pick = "d1" THEN Atoms(A) \cup D1(A)
            ELSE IF Pick = "d2" THEN D2(C, C2) \ (Atoms(A) \cup D1(A))
+           ELSE IF Pick = "d3opt" THEN D3opt
            ELSE TypesUpTo(2, A, C, C2)
 (* computed once and kept in a TLC register (TLC re-evaluates definitions that involve *)
 (* RECURSIVE operators at every use)                                                    *)
